@@ -93,6 +93,16 @@ claim("C07", T + "panic-site inventory over call-graph reachability from the ABC
       "Arithmetic, bounds, nil *big.Int, third-party and RLP-internal panics are NOT decided. Decides that every explicit panic/exit site reachable from DeliverTx/CheckTx/BeginBlock/EndBlock/Commit is governed by a storage/encoder error or is in the confirmed table; that every state mutator that can panic on its arguments is called from deliver blocks only behind its pre-check sibling on the same arguments; that the amount sold by every fee swap was produced or validated by a successful CalculateCommission/CheckSwap on every path (found and repaired: dust failure fee crashed DeliverTx); that block-level code does not dereference a may-return-nil lookup unchecked (two genuine crashes recorded as known findings: matured move to a removed candidate; reward payout after a validator key change); and that type assertions on the decoded data are gated by the matching tx type.",
       TRUST + "A pre-check sibling rejects exactly the arguments its mutator panics on.", "DESIGN.md §4 C07")
 
+
+claim("C14", T + "interprocedural gate facts for the owner / once-only gates of the live RemoveLimitOrder handler; same-object rule (the order whose WantSell is refunded is the object handed to updateOrders) with must-pass-through on every refunding return; provenance of the credited (account, coin, volume) in the handler, ExpireOrders and the minimum-volume closer; who-may-call on the removal functions",
+      "Price, priority order, partial-fill price retention and the sorted-id caches are NOT decided. Decides that an order is cancelled only by its owner, only once (already-used / empty gates in the handler and in removeLimitOrder, which closes the order on every refunding path), and that exactly the remaining WantSell of the live order — the object that is closed, not the stored copy — is returned in the order's sell coin to the owner by cancellation, expiry and minimum-volume closing, with the supply checker told the same amount.",
+      TRUST + "updateOrders subtracts the amounts of the orders it is given from the live orders with those ids.", "DESIGN.md §4 C14")
+
+
+claim("C15", T + "forward dataflow of the user's limit field into a rejecting comparison (direct Cmp with polarity check, or the CheckSwap argument of the matching direction) outside the deliver block; polarity of the limit rejections inside CheckSwap; origin agreement between result tags and the sender's balance changes; whole-balance provenance in sell-all handlers",
+      "That deliver-time recomputation reproduces the checked amounts is arithmetic and NOT decided. Decides that in each of the six live trading handlers MinimumValueToBuy / MaximumValueToSell reaches, before the deliver block, a comparison with the calculated amount whose failing edge rejects with the right polarity; that tx.return / tx.sell_amount print amounts with the same call-result origins as an amount credited to or debited from the sender; and that sell-all handlers debit an amount derived from the sender's whole balance of the sold coin.",
+      TRUST, "DESIGN.md §4 C15")
+
 PENDING = "check not built yet in this round; see DESIGN.md §4 for the planned static rule"
 for p in ["C%02d" % i for i in range(1, 30)]:
     if p not in CLAIMS and p != "C12":
